@@ -28,7 +28,9 @@ MANIFEST = dict(
          "every state a few transactions of the block can produce, and cache operations of two block states (one opened before, one after a redeploy); the harness "
          "replays all of them twice (with and without the reads): after every single Go call the account buffer, storage cache, trie roots, caches and DB writes of the "
          "block state AND of two other block states must be unchanged and the returned value must be the model's, and roots / dumps / DB contents after Update+Commit "
-         "must be equal in both runs.",
+         "must be equal in both runs.  The same for what the read-only host calls reach outside package state (system.GetStaking, name.GetAddress, name.Resolve, "
+         "name.GetOwner: addresses with a committed staking record, a record of this block, no record; registered / unregistered / special names), also when an "
+         "earlier governance transaction of the block has staged the storage of the system / name contract, so that a handle opened by a read shares it.",
     note="model extraction for the VM (the extractor and the mutating half of its classification tables tools/vmguards/classify.go stay in the trusted base; LuaJIT "
          "internals, sqlite and what happens below 'this function calls that primitive under these tests' are out of scope); the read-only half of the tables is "
          "discharged dynamically on the real state / statedb code (memorydb stands for the disk store; the VM-side call sequences getCode / GetABI are transcribed, "
@@ -109,11 +111,18 @@ READ_BINDING = {
     "statedb.GetMultiCallState": dict(go=["statedb.GetMultiCallState"], acts=["RdMulti"], site="vm_callback.go luaDelegateCallContract; contract.go Execute"),
     "statedb.GetSystemAccountState": dict(go=["statedb.GetSystemAccountState"], acts=["RdSys"], site="vm_callback.go luaGetStaking"),
     "statedb.GetNameAccountState": dict(go=["statedb.GetNameAccountState"], acts=["RdName"], site="vm_callback.go luaGetStaking"),
+    # -- outside package state: the governance contracts (harness/contract/name/verif_govpure_test.go, package name)
+    "system.GetStaking": dict(go=["system.GetStaking"], acts=["GvStaking"], site="vm_callback.go luaGetStaking: system.GetStaking(scs, name.GetAddress(namescs, addr))"),
+    "name.GetAddress": dict(go=["name.GetAddress"], acts=["GvStaking", "GvAddress"], site="vm_callback.go luaGetStaking"),
+    "name.Resolve": dict(go=["name.Resolve"], acts=["GvResolve"],
+                         site="vm_callback.go luaNameResolve; getAddressNameResolved (luaCallContract, luaDelegateCallContract, luaSendAmount, luaGetBalance, luaIsContract, luaDeployContract)"),
+    "name.GetOwner": dict(go=["name.GetOwner"], acts=["GvOwner"], site="not called by the VM today (rpc); kept next to GetAddress"),
     # -- same NAME as a method of the state packages, but never called on a state object in contract/
     "Close": dict(foreign=[r"^f$", r"traceFile$"], go=[], acts=[], site="vm.go: *os.File of the call trace (state.ChainStateDB.Close is not reachable from a vmContext)"),
     "MarshalJSON": dict(foreign=[r"^event$"], go=[], acts=[], site="vm.go: types.Event (statedb.Dump.MarshalJSON is a debugging aid)"),
 }
 STATE_PKGS = ("state", "statedb")
+GOV_PKGS = ("name", "system", "enterprise")      # tools/vmguards classify.go govPkgs
 
 
 def state_methods(repo):
@@ -144,9 +153,9 @@ def binding_crosscheck(model, repo, table):
     for pc in model["pure_calls"] or []:
         name, rt, recv = pc["name"], pc.get("rt") or "", pc.get("recv") or ""
         if "." in name:                                             # package-level function
-            if name.split(".")[0] not in STATE_PKGS:
+            if name.split(".")[0] not in STATE_PKGS + GOV_PKGS:
                 continue
-            if name not in funcs:
+            if name.split(".")[0] in STATE_PKGS and name not in funcs:
                 problems.append("%s: the model treats %s as pure, but the state packages of this tree have no such function" % (pc["src"], name))
             ent = table.get(name)
         else:
@@ -167,12 +176,14 @@ def binding_crosscheck(model, repo, table):
     # belt and braces: the text of contract/*.go (call sites in functions that are in no process of the model)
     names = sorted(n for n in pure_m if n in meth)
     pat_m = re.compile(r"([\w\.\)\]]+)\.(%s)\(" % "|".join(map(re.escape, names))) if names else None
-    pat_f = re.compile(r"\b(state|statedb)\.([A-Z]\w*)\(")
+    pat_f = re.compile(r"\b(state|statedb|name|system|enterprise)\.([A-Z]\w*)\(")
     pure_f = set(model.get("pure_pkg_funcs") or [])
+    pure_pkgs = set(model.get("pure_gov_pkgs") or [])             # governance packages all of whose functions the model takes for pure
     for f in sorted(glob.glob(os.path.join(repo, "contract", "*.go"))):
         if f.endswith("_test.go"):
             continue
-        for ln, line in enumerate(open(f, encoding="utf-8", errors="replace"), 1):
+        src_f = open(f, encoding="utf-8", errors="replace").read()
+        for ln, line in enumerate(src_f.splitlines(), 1):
             code = line.split("//")[0]
             for m in (pat_m.finditer(code) if pat_m else []):
                 if m.group(2) not in table:                         # (receiver types are unknown here: name level only)
@@ -180,8 +191,10 @@ def binding_crosscheck(model, repo, table):
                         os.path.basename(f), ln, m.group(2), m.group(1)))
             for m in pat_f.finditer(code):
                 q = m.group(1) + "." + m.group(2)
-                if q in pure_f and q not in table:
-                    problems.append("%s:%d: call of %s: pure in classify.go pkgFuncs without an entry in READ_BINDING" % (os.path.basename(f), ln, q))
+                if m.group(1) in GOV_PKGS and not re.search(r'"github.com/aergoio/aergo/v2/contract/%s"' % m.group(1), src_f):
+                    continue                                        # a local variable of that name, not the package
+                if (q in pure_f or m.group(1) in pure_pkgs) and q not in table:
+                    problems.append("%s:%d: call of %s: pure in classify.go (pkgFuncs / purePkgs) without an entry in READ_BINDING" % (os.path.basename(f), ln, q))
     return sorted(set(problems)), used
 
 
@@ -257,7 +270,8 @@ def purity_plan(trs):
     plan = {}
     for part, sel_edge, sel_read in (
             ("purity", lambda s, a: a["name"] in MUT_STEPS, lambda s, a: a["name"].startswith("Rd") and a["name"] != "RdVmLoad"),
-            ("cache", lambda s, a: a["name"] in ("CacheAdd", "CacheRemove"), lambda s, a: a["name"] == "CacheLookup")):
+            ("cache", lambda s, a: a["name"] in ("CacheAdd", "CacheRemove"), lambda s, a: a["name"] == "CacheLookup"),
+            ("gov", lambda s, a: a["name"] == "GovTx", lambda s, a: a["name"].startswith("Gv"))):
         acts, states, edges, reads = graph(sel_edge, sel_read)
         inits = [i for i, s in enumerate(states) if s[4] == 0 and s[6] == 0]
         if len(inits) != 1:
@@ -283,7 +297,23 @@ def run_purity(c, model, thorough):
     if uses_proof and not any("GetAccountAndProof" in p for p in cut_problems):
         raise vlib.Infra("binding cross-check self-test failed: a table without GetAccountAndProof was accepted")
     import concurrent.futures
-    with concurrent.futures.ThreadPoolExecutor(max_workers=3) as ex:
+
+    def warm(pkg, name):
+        # compile the harness packages of the CURRENT tree while TLC runs (fills Go's build cache; the binaries that are run
+        # are built again by vlib.go_test afterwards); failures are reported by that later build
+        try:
+            subprocess.run(["go", "test", "-c", "-tags", "verif", "-overlay", vlib.gen_overlay(), "-vet=off", "-o", os.path.join(work, name), pkg],
+                           cwd=vlib.REPO, env=vlib.goenv(), capture_output=True, text=True, timeout=1500)
+        except Exception:
+            pass
+        finally:
+            try:
+                os.remove(os.path.join(work, name))
+            except OSError:
+                pass
+    with concurrent.futures.ThreadPoolExecutor(max_workers=5) as ex:
+        ex.submit(warm, "./state/", "warm-state.test")
+        ex.submit(warm, "./contract/name/", "warm-name.test")
         f_gen = ex.submit(vlib.tlc, SPEC_DIR, "ReadPurity", "Gen_ReadPurity_big.cfg" if thorough else "Gen_ReadPurity.cfg", os.path.join(work, "gen"), workers=1, timeout=1800)
         f_st = [(cfg, prop, ex.submit(vlib.tlc, SPEC_DIR, "ReadPurity", cfg, os.path.join(work, cfg[:-4]), workers=1, timeout=600))
                 for cfg, prop in (("ST_ReadPurity_lookup.cfg", "ReadsPure"), ("ST_ReadPurity_cache.cfg", "CacheIsolated"))]
@@ -307,8 +337,14 @@ def run_purity(c, model, thorough):
     inp, outp = os.path.join(work, "in.json"), os.path.join(work, "out.json")
     json.dump(dict(purity={k: plan["purity"][k] for k in ("acts", "reads_at", "walks", "init")},
                    cache={k: plan["cache"][k] for k in ("acts", "reads_at", "walks", "init")}, sample=24 if thorough else 12), open(inp, "w"))
+    ginp, goutp = os.path.join(work, "gov-in.json"), os.path.join(work, "gov-out.json")
+    json.dump(dict(gov={k: plan["gov"][k] for k in ("acts", "reads_at", "walks", "init")}, salts=24 if thorough else 6), open(ginp, "w"))
     t1 = time.time()
-    rc, out = vlib.go_test("./state/", "^TestVerifReadPurity$", env={"VERIF_IN": inp, "VERIF_OUT": outp, "VERIF_SEED": c.seed, "VERIF_TIER": c.tier}, timeout=2400)
+    with concurrent.futures.ThreadPoolExecutor(max_workers=2) as ex:
+        f_gov = ex.submit(vlib.go_test, "./contract/name/", "^TestVerifGovPurity$", env={"VERIF_IN": ginp, "VERIF_OUT": goutp, "VERIF_SEED": c.seed, "VERIF_TIER": c.tier},
+                          timeout=1200, cwd=os.path.join(work, "gov-cwd"))
+        rc, out = vlib.go_test("./state/", "^TestVerifReadPurity$", env={"VERIF_IN": inp, "VERIF_OUT": outp, "VERIF_SEED": c.seed, "VERIF_TIER": c.tier}, timeout=2400)
+        grc, gout = f_gov.result()
     t2 = time.time()
 
     def absorb():
@@ -318,20 +354,26 @@ def run_purity(c, model, thorough):
         r = c.absorb_go(outp, out)
         if rc != 0 and not r.get("violations"):
             raise vlib.Infra("read-purity harness failed:\n" + out[-3000:])
-        calls = (r.get("extra") or {}).get("go_calls") or {}
-        if not r.get("violations"):
+        calls = dict((r.get("extra") or {}).get("go_calls") or {})
+        rg = c.absorb_go(goutp, gout)
+        if grc != 0 and not rg.get("violations"):
+            raise vlib.Infra("governance read-purity harness failed:\n" + gout[-3000:])
+        calls.update((rg.get("extra") or {}).get("go_calls") or {})
+        if not r.get("violations") and not rg.get("violations"):
             idle = sorted({"%s -> %s" % (g, call) for g, e in READ_BINDING.items() for call in e.get("go", []) if not calls.get(call)})
             if idle:
                 raise vlib.Infra("the harness did not execute Go calls the binding table names:\n" + "\n".join(idle))
-        c.traces_validated += len(plan["purity"]["walks"]) + len(plan["cache"]["walks"])
+        c.traces_validated += len(plan["purity"]["walks"]) + len(plan["cache"]["walks"]) + (rg.get("extra") or {}).get("gov_walks", 0)
         c.extra["read_purity"] = dict(
             binding={g: dict(go=e.get("go"), acts=e.get("acts"), site=e.get("site"), call_sites_now=used.get(g, [])[:12]) for g, e in sorted(READ_BINDING.items())},
             model=dict(states=gen.distinct, transitions=len(trs), cfg=gen.cfg),
             purity=dict(states=plan["purity"]["n_states"], state_changing_edges=plan["purity"]["n_edges"], read_transitions=plan["purity"]["n_reads"],
                         twin_runs=len(plan["purity"]["walks"])),
             cache=dict(states=plan["cache"]["n_states"], edges=plan["cache"]["n_edges"], lookups=plan["cache"]["n_reads"], walks=len(plan["cache"]["walks"])),
+            governance=dict(states=plan["gov"]["n_states"], edges=plan["gov"]["n_edges"], reads=plan["gov"]["n_reads"],
+                            twin_runs=(rg.get("extra") or {}).get("gov_walks", 0)),
             go_calls=calls, wall_s=dict(tlc_and_plan=round(t1 - t0, 1), build_and_replay=round(t2 - t1, 1)))
-        return not r.get("violations")
+        return not r.get("violations") and not rg.get("violations")
     return absorb
 
 
